@@ -10,16 +10,43 @@ import (
 // canonical spelling. Pos, when non-nil, receives the byte offset of the
 // first token of every node (expressions and rules).
 type PrintOpts struct {
-	Package  string // initializer package name; "-" = no initializer
-	Recv     string // receiver name used in block bodies (default "c")
-	DefOp    string // rule definition operator (default "<-")
-	RuleSep  string // text after each rule (default "\n")
-	Pos      map[*Expr]int
-	RulePos  map[*Rule]int
-	AllParen bool   // parenthesise every composite sub-expression
-	Space    string // token separator inside expressions (default " ")
-	LitQuote byte   // '"' (default), '\'' for single-rune literals, '`' raw
+	Package   string  // initializer package name; "-" = no initializer
+	Recv      string  // receiver name used in block bodies (default "c")
+	DefOp     string  // rule definition operator (default "<-")
+	RuleSep   string  // text after each rule (default "\n")
+	LastSep   *string // text after the last rule (default RuleSep)
+	Lead      string  // text before the first rule / initializer
+	Pos       map[*Expr]int
+	CodePos   map[*Expr]int // offset of the '{' of a node's code block
+	RulePos   map[*Rule]int
+	DispPos   map[*Rule]int
+	InitPos   *int
+	AllParen  bool   // parenthesise every composite sub-expression
+	Space     string // token separator inside expressions (default " ")
+	OpSpace   string // separator between an operator and its operand ("" default)
+	LitQuote  byte   // '"' (default), '\'' for single-rune literals, '`' raw
+	LitEsc    int    // 0 plain, 1 \xHH, 2 \ooo, 3 \uHHHH, 4 \UHHHHHHHH for every rune of a literal
+	ClsEsc    int    // same for class characters
+	CodeStyle int    // spelling of code block bodies (see codeStyles)
+	InitCode  string // initializer content override
 }
+
+// codeStyles are block bodies exercising the code block lexer: nested
+// braces, braces inside string / raw string / rune literals and comments.
+var codeStyles = []string{
+	"",
+	"{ if true { x := []int{1}; _ = x }; return nil, nil }",
+	"{ s := \"}{\"; _ = s; return nil, nil }",
+	"{ s := `}{`; _ = s; return nil, nil }",
+	"{ r := '}'; q := '\\''; _, _ = r, q; return nil, nil }",
+	"{ // } comment {\n return nil, nil }",
+	"{ /* } { */ return nil, nil }",
+	"{}",
+	"{\n\treturn nil, nil\n}",
+}
+
+// NCodeStyles is the number of code block spellings.
+func NCodeStyles() int { return len(codeStyles) }
 
 // Precedence levels (binding strength), lowest first.
 const (
@@ -59,12 +86,20 @@ func Print(g *Grammar, o *PrintOpts) string {
 		o = &PrintOpts{}
 	}
 	var b strings.Builder
+	b.WriteString(o.Lead)
 	pkg := o.Package
 	if pkg == "" {
 		pkg = "vgram"
 	}
 	if pkg != "-" {
-		fmt.Fprintf(&b, "{\npackage %s\n}\n\n", pkg)
+		if o.InitPos != nil {
+			*o.InitPos = b.Len()
+		}
+		if o.InitCode != "" {
+			b.WriteString(o.InitCode + "\n\n")
+		} else {
+			fmt.Fprintf(&b, "{\npackage %s\n}\n\n", pkg)
+		}
 	}
 	op := o.DefOp
 	if op == "" {
@@ -74,23 +109,36 @@ func Print(g *Grammar, o *PrintOpts) string {
 	if sep == "" {
 		sep = "\n"
 	}
-	for _, r := range g.Rules {
+	for i, r := range g.Rules {
 		if o.RulePos != nil {
 			o.RulePos[r] = b.Len()
 		}
 		b.WriteString(r.Name)
 		if r.Display != "" {
 			b.WriteString(" ")
+			if o.DispPos != nil {
+				o.DispPos[r] = b.Len()
+			}
 			b.WriteString(strconv.Quote(r.Display))
 		}
 		b.WriteString(" " + op + " ")
 		printExpr(&b, r.Expr, lvRecover, o)
-		b.WriteString(sep)
+		if i == len(g.Rules)-1 && o.LastSep != nil {
+			b.WriteString(*o.LastSep)
+		} else {
+			b.WriteString(sep)
+		}
 	}
 	return b.String()
 }
 
 func blockBody(e *Expr, o *PrintOpts) string {
+	if e.Code != "" {
+		return e.Code
+	}
+	if o != nil && o.CodeStyle > 0 && o.CodeStyle < len(codeStyles) {
+		return codeStyles[o.CodeStyle]
+	}
 	recv := "c"
 	if o != nil && o.Recv != "" {
 		recv = o.Recv
@@ -105,6 +153,13 @@ func blockBody(e *Expr, o *PrintOpts) string {
 	return b.String()
 }
 
+func writeCode(b *strings.Builder, e *Expr, o *PrintOpts) {
+	if o != nil && o.CodePos != nil {
+		o.CodePos[e] = b.Len()
+	}
+	b.WriteString(blockBody(e, o))
+}
+
 func printExpr(b *strings.Builder, e *Expr, min int, o *PrintOpts) {
 	if o != nil && o.AllParen && min > lvRecover {
 		min = lvPrimary
@@ -113,9 +168,13 @@ func printExpr(b *strings.Builder, e *Expr, min int, o *PrintOpts) {
 	if o != nil && o.Space != "" {
 		sp = o.Space
 	}
+	osp := ""
+	if o != nil {
+		osp = o.OpSpace
+	}
 	paren := level(e) < min
 	if paren {
-		b.WriteString("(")
+		b.WriteString("(" + osp)
 	}
 	if o != nil && o.Pos != nil {
 		// position of the node = its first token. For composite nodes whose
@@ -126,7 +185,7 @@ func printExpr(b *strings.Builder, e *Expr, min int, o *PrintOpts) {
 	case KRecover:
 		// left-associative: a nested recover in the first slot needs no parens
 		printExpr(b, e.Kids[0], lvRecover, o)
-		b.WriteString(sp + "//{" + strings.Join(e.FailLabels, ", ") + "}" + sp)
+		b.WriteString(sp + "//{" + osp + strings.Join(e.FailLabels, osp+","+sp) + osp + "}" + sp)
 		printExpr(b, e.Kids[1], lvChoice, o)
 	case KChoice:
 		for i, k := range e.Kids {
@@ -137,7 +196,8 @@ func printExpr(b *strings.Builder, e *Expr, min int, o *PrintOpts) {
 		}
 	case KAction:
 		printExpr(b, e.Kids[0], lvSeq, o)
-		b.WriteString(sp + blockBody(e, o))
+		b.WriteString(sp)
+		writeCode(b, e, o)
 	case KSeq:
 		for i, k := range e.Kids {
 			if i > 0 {
@@ -146,25 +206,25 @@ func printExpr(b *strings.Builder, e *Expr, min int, o *PrintOpts) {
 			printExpr(b, k, lvLabel, o)
 		}
 	case KLabel:
-		b.WriteString(e.Name + ":")
+		b.WriteString(e.Name + osp + ":" + osp)
 		printExpr(b, e.Kids[0], lvPrefix, o)
 	case KThrow:
 		b.WriteString("%{" + e.Name + "}")
 	case KAnd:
-		b.WriteString("&")
+		b.WriteString("&" + osp)
 		printExpr(b, e.Kids[0], lvSuffix, o)
 	case KNot:
-		b.WriteString("!")
+		b.WriteString("!" + osp)
 		printExpr(b, e.Kids[0], lvSuffix, o)
 	case KOpt:
 		printExpr(b, e.Kids[0], lvPrimary, o)
-		b.WriteString("?")
+		b.WriteString(osp + "?")
 	case KStar:
 		printExpr(b, e.Kids[0], lvPrimary, o)
-		b.WriteString("*")
+		b.WriteString(osp + "*")
 	case KPlus:
 		printExpr(b, e.Kids[0], lvPrimary, o)
-		b.WriteString("+")
+		b.WriteString(osp + "+")
 	case KRef:
 		b.WriteString(e.Name)
 	case KAny:
@@ -172,16 +232,19 @@ func printExpr(b *strings.Builder, e *Expr, min int, o *PrintOpts) {
 	case KLit:
 		b.WriteString(LitSrc(e, o))
 	case KClass:
-		b.WriteString(ClassSrc(e))
+		b.WriteString(classSrc(e, o))
 	case KAndCode:
-		b.WriteString("&" + blockBody(e, o))
+		b.WriteString("&" + osp)
+		writeCode(b, e, o)
 	case KNotCode:
-		b.WriteString("!" + blockBody(e, o))
+		b.WriteString("!" + osp)
+		writeCode(b, e, o)
 	case KState:
-		b.WriteString("#" + blockBody(e, o))
+		b.WriteString("#" + osp)
+		writeCode(b, e, o)
 	}
 	if paren {
-		b.WriteString(")")
+		b.WriteString(osp + ")")
 	}
 }
 
@@ -191,7 +254,16 @@ func LitSrc(e *Expr, o *PrintOpts) string {
 		return e.Src
 	}
 	s := strconv.Quote(e.Val)
-	if o != nil {
+	if o != nil && o.LitEsc > 0 {
+		var sb strings.Builder
+		sb.WriteString(`"`)
+		for _, r := range e.Val {
+			sb.WriteString(escRune(r, o.LitEsc))
+		}
+		sb.WriteString(`"`)
+		s = sb.String()
+	}
+	if o != nil && o.LitEsc == 0 {
 		switch o.LitQuote {
 		case '\'':
 			if rs := []rune(e.Val); len(rs) == 1 && rs[0] != '\'' && rs[0] != '\\' && strconv.IsPrint(rs[0]) {
@@ -246,13 +318,37 @@ func classRune(r rune, first bool) string {
 	return string(r)
 }
 
+// escRune spells a rune with the given escape form (falling back to a
+// form that can express it).
+func escRune(r rune, form int) string {
+	switch {
+	case form == 1 && r < 0x100 && r < 0x80:
+		return fmt.Sprintf(`\x%02x`, r)
+	case form == 2 && r < 0x80:
+		return fmt.Sprintf(`\%03o`, r)
+	case form == 3 && r <= 0xFFFF:
+		return fmt.Sprintf(`\u%04X`, r)
+	case form == 4:
+		return fmt.Sprintf(`\U%08x`, r)
+	case r <= 0xFFFF:
+		return fmt.Sprintf(`\u%04x`, r)
+	}
+	return fmt.Sprintf(`\U%08x`, r)
+}
+
 // ClassSrc is the source spelling of a character class; it is also the
 // text pigeon reports for the class in "expected" lists.
-func ClassSrc(e *Expr) string {
+func ClassSrc(e *Expr) string { return classSrc(e, nil) }
+
+func classSrc(e *Expr, o *PrintOpts) string {
 	if e.Src != "" {
 		return e.Src
 	}
 	c := e.Class
+	cr := classRune
+	if o != nil && o.ClsEsc > 0 {
+		cr = func(r rune, first bool) string { return escRune(r, o.ClsEsc) }
+	}
 	var b strings.Builder
 	b.WriteString("[")
 	if c.Inverted {
@@ -268,9 +364,9 @@ func ClassSrc(e *Expr) string {
 				b.WriteString(`\p{` + it.Unicode + `}`)
 			}
 		case it.Lo == it.Hi:
-			b.WriteString(classRune(it.Lo, first))
+			b.WriteString(cr(it.Lo, first))
 		default:
-			b.WriteString(classRune(it.Lo, first) + "-" + classRune(it.Hi, false))
+			b.WriteString(cr(it.Lo, first) + "-" + cr(it.Hi, false))
 		}
 	}
 	b.WriteString("]")
@@ -279,3 +375,9 @@ func ClassSrc(e *Expr) string {
 	}
 	return b.String()
 }
+
+// BlockText is the code block text the printer writes for e under o.
+func BlockText(e *Expr, o *PrintOpts) string { return blockBody(e, o) }
+
+// ClassText is the class text the printer writes for e under o.
+func ClassText(e *Expr, o *PrintOpts) string { return classSrc(e, o) }
